@@ -96,6 +96,10 @@ def gen_host(rng):
     return out
 
 
+INTERIOR_CHARS = [chr(i) for i in range(0x20)] + ['\x1c', '\x1d', '\x1e', '\x1f', '\x7f', '\x85', '\xa0', '\u1680', '\u2028',
+                                                     '\u2029', '\u3000', '\u200b', '\ufeff', '\xad']
+
+
 def gen_structured(rng):
     scheme = rng.choice(NETWORK_SCHEMES)
     if rng.random() < 0.3:
@@ -123,6 +127,11 @@ def gen_structured(rng):
         frag = '#' + rng.choice(['', 'top', 'a b', '%aF', 'é', '#', '?x'])
     sep = '://' if rng.random() < 0.93 else rng.choice([':', ':/', ':///'])
     url = scheme + sep + ui + host + port + path + query + frag
+    if rng.random() < 0.08:
+        # a control / separator / space character at an interior position of any component (every C0 value, DEL,
+        # C1 NEL, the Unicode spaces and line separators)
+        i = rng.randrange(len(scheme) + len(sep), len(url) + 1)
+        url = url[:i] + rng.choice(INTERIOR_CHARS) + url[i:]
     if rng.random() < 0.05:
         url = rng.choice([' ', '\t', '\n', '　', ' ']) + url + rng.choice([' ', '\n', ''])
     return url
